@@ -13,7 +13,7 @@ use serde_json::json;
 use std::net::IpAddr;
 use std::time::Duration;
 use trippy_core::verif::{Channel, ChannelConfig, Network};
-use trippy_core::{IcmpExtensionParseMode, PacketSize, PayloadPattern, PrivilegeMode, Protocol, Sequence, TypeOfService};
+use trippy_core::{IcmpExtensionParseMode, PacketSize, PayloadPattern, PrivilegeMode, Sequence, TypeOfService};
 use trippy_packet::icmp_extension::extension_header::ExtensionHeaderPacket;
 use trippy_packet::icmp_extension::extension_object::ExtensionObjectPacket;
 use trippy_packet::icmp_extension::extension_structure::ExtensionsPacket;
@@ -735,6 +735,194 @@ fn sweep_test(c: &SweepCell, obs: &mut Obs) -> CheckResult {
     Ok(())
 }
 
+/// Entry point of the libFuzzer target `recv_path`.
+pub fn fuzz_recv(sel: u8, packet: &[u8]) {
+    let cfgs = sweep_cfgs();
+    let cfg = &cfgs[usize::from(sel) % cfgs.len()];
+    let from = host_addr(cfg.v6, 7);
+    // straight into recv_probe (a panic aborts the fuzzer: no catch_unwind on this path)
+    vclock::enable(crate::simnet::run::START_NS);
+    world::install(World::new(cfg.clone(), WorldSpec::simple(0)));
+    if let Ok(mut ch) = Channel::<SimSocket>::connect(&channel_config(cfg)) {
+        world::with(|w| w.inject_now(packet.to_vec(), from));
+        let _ = ch.recv_probe();
+    }
+    let _ = world::take();
+    vclock::disable();
+    // and into a running Strategy while the first probes are awaited
+    let mut w = WorldSpec::simple(1);
+    w.paths[0].hops[0].delay_ns = 3_000_000;
+    w.target.node.delay_ns = 3_000_000;
+    w.raw = vec![RawInj { at_ns: 1_000_000, bytes: packet.to_vec(), from, label: "fuzz".into() }];
+    let tracer = match cfg.build() {
+        Ok(t) => t,
+        Err(_) => return,
+    };
+    vclock::enable(crate::simnet::run::START_NS);
+    world::install(World::new(cfg.clone(), w));
+    let _ = tracer.verif_run_with_socket::<SimSocket, _>(cfg.src_addr(), |_| {});
+    let _ = world::take();
+    vclock::disable();
+}
+
+/// Seed corpus for `recv_path`: genuine responses of every sweep configuration.
+pub fn fuzz_corpus() -> Vec<Vec<u8>> {
+    let mut out = vec![];
+    for (i, cfg) in sweep_cfgs().iter().enumerate() {
+        let log = run_trace_with(cfg, &sweep_world(), |w| w.capture = true);
+        let mut seen = std::collections::HashSet::new();
+        for c in &log.captured {
+            if seen.insert((c.from, c.bytes.len())) {
+                let mut v = vec![i as u8];
+                v.extend(&c.bytes);
+                out.push(v);
+            }
+        }
+    }
+    out
+}
+
+/// Thorough tier only: coverage-guided campaigns of the two cargo-fuzz targets.
+pub struct LibFuzzer;
+
+fn replay_artifact(path: &str, bytes: &[u8]) -> CheckResult {
+    if bytes.is_empty() {
+        return Ok(());
+    }
+    let r = if path.contains("codec_views") {
+        let ty = VIEW_TYPES[usize::from(bytes[0]) % VIEW_TYPES.len()];
+        catch(|| touch(ty, &bytes[1..]))
+    } else {
+        if bytes.len() < 2 {
+            return Ok(());
+        }
+        catch(|| {
+            fuzz_recv(bytes[0], &bytes[1..]);
+            Ok(())
+        })
+    };
+    let _ = world::take();
+    vclock::disable();
+    match r {
+        Ok(r) => r,
+        Err(p) => Err(Fail::new(panic_sig(&p), format!("fuzz input {path} panics: {p}"))),
+    }
+}
+
+impl SubCheck for LibFuzzer {
+    fn name(&self) -> &str {
+        "libfuzzer"
+    }
+    fn run(&self, ctx: &Ctx, rep: &Report) {
+        if ctx.tier != Tier::Thorough {
+            rep.note("libfuzzer: coverage-guided campaigns run in the thorough tier only");
+            return;
+        }
+        let t0 = std::time::Instant::now();
+        let fuzz_dir = ctx.verif_dir.join("fuzz");
+        let harness_dir = ctx.verif_dir.join("harness");
+        let corpus = ctx.out_dir.join("fuzz-corpus");
+        let art = ctx.out_dir.join("replays");
+        let _ = std::fs::create_dir_all(&art);
+        let build = std::process::Command::new("cargo")
+            .args(["+nightly", "fuzz", "build", "-O", "--fuzz-dir"])
+            .arg(&fuzz_dir)
+            .current_dir(&harness_dir)
+            .env("CARGO_NET_OFFLINE", "true")
+            .output();
+        match build {
+            Ok(o) if o.status.success() => {}
+            Ok(o) => {
+                rep.note(format!("libfuzzer: build failed (inconclusive): {}", String::from_utf8_lossy(&o.stderr).lines().rev().take(5).collect::<Vec<_>>().join(" | ")));
+                return;
+            }
+            Err(e) => {
+                rep.note(format!("libfuzzer: cannot start cargo fuzz (inconclusive): {e}"));
+                return;
+            }
+        }
+        let runs = (ctx.cases(0, 1_500_000)).to_string();
+        for target in ["recv_path", "codec_views"] {
+            let cdir = corpus.join(target);
+            let _ = std::fs::remove_dir_all(&cdir);
+            let _ = std::fs::create_dir_all(&cdir);
+            if target == "recv_path" {
+                for (i, b) in fuzz_corpus().iter().enumerate() {
+                    let _ = std::fs::write(cdir.join(format!("seed-{i:04}")), b);
+                }
+            } else {
+                for (i, ty) in VIEW_TYPES.iter().enumerate() {
+                    let mut v = vec![i as u8];
+                    v.extend((0..min_size(ty) + 24).map(|k| (mix(i as u64, k as u64) >> 9) as u8));
+                    let _ = std::fs::write(cdir.join(format!("seed-{i:04}")), v);
+                }
+            }
+            let prefix = format!("{}/fuzz-{target}-", art.display());
+            let n = if target == "codec_views" { format!("{}", ctx.cases(0, 20_000_000)) } else { runs.clone() };
+            let out = std::process::Command::new("cargo")
+                .args(["+nightly", "fuzz", "run", "-O", "--fuzz-dir"])
+                .arg(&fuzz_dir)
+                .arg(target)
+                .arg(&cdir)
+                .arg("--")
+                .arg(format!("-runs={n}"))
+                .arg(format!("-seed={}", (ctx.seed % 0xffff_ffff).max(1)))
+                .args(["-max_len=1100", "-len_control=0", "-print_final_stats=1"])
+                .arg(format!("-artifact_prefix={prefix}"))
+                .current_dir(&harness_dir)
+                .env("CARGO_NET_OFFLINE", "true")
+                .output();
+            let Ok(out) = out else {
+                rep.note(format!("libfuzzer/{target}: could not run (inconclusive)"));
+                continue;
+            };
+            let err = String::from_utf8_lossy(&out.stderr);
+            let execs = err
+                .lines()
+                .find_map(|l| l.strip_prefix("stat::number_of_executed_units:").map(|x| x.trim().parse::<u64>().unwrap_or(0)))
+                .unwrap_or(0);
+            rep.inner.lock().unwrap().evaluations += execs;
+            rep.sub_summary(json!({"sub": format!("libfuzzer/{target}"), "kind": "coverage-guided fuzzing", "executions": execs, "exit_ok": out.status.success(), "wall_s": t0.elapsed().as_secs_f64()}));
+            if !out.status.success() {
+                // a crash artifact is only a violation if it reproduces in the harness profile
+                let mut found = false;
+                if let Ok(rd) = std::fs::read_dir(&art) {
+                    for e in rd.filter_map(Result::ok) {
+                        let p = e.path();
+                        let name = p.file_name().and_then(|n| n.to_str()).unwrap_or("").to_string();
+                        if !name.starts_with(&format!("fuzz-{target}-")) {
+                            continue;
+                        }
+                        let Ok(bytes) = std::fs::read(&p) else { continue };
+                        if let Err(f) = replay_artifact(&p.display().to_string(), &bytes) {
+                            found = true;
+                            let mut r = rep.inner.lock().unwrap();
+                            if !r.violations.iter().any(|v| v.sig == f.sig) {
+                                r.violations.push(Violation { sub: format!("libfuzzer/{target}"), sig: f.sig.clone(), msg: f.msg.clone(), replay: p.display().to_string() });
+                            }
+                        }
+                    }
+                }
+                if !found {
+                    rep.note(format!("libfuzzer/{target}: exited with {:?} without a reproducible crash (inconclusive): {}", out.status.code(), err.lines().rev().take(3).collect::<Vec<_>>().join(" | ")));
+                }
+            }
+        }
+    }
+    fn replay(&self, _case: &serde_json::Value) -> CheckResult {
+        Ok(())
+    }
+}
+
+/// Replay a raw libFuzzer artifact (not a JSON replay file).
+pub fn replay_raw(path: &str) -> Option<CheckResult> {
+    let bytes = std::fs::read(path).ok()?;
+    if serde_json::from_slice::<serde_json::Value>(&bytes).is_ok() {
+        return None;
+    }
+    Some(replay_artifact(path, &bytes))
+}
+
 pub fn check() -> PropertyCheck {
     PropertyCheck {
         id: "C04",
@@ -758,6 +946,7 @@ pub fn check() -> PropertyCheck {
                 cases: sweep_cases,
                 test: sweep_test,
             }),
+            Box::new(LibFuzzer),
         ],
     }
 }
